@@ -142,6 +142,7 @@ func specPlain4(p *packets.FrameParser) bool {
 //@ func (*tcpDriver).SendProbe
 //@ safety C06 C05
 //@ requires[pre.nonnil]   t != nil && t.sink != nil && t.config != nil && t.config.buffer != nil
+//@ requires[C10.send.open]  selb(isOpen, ref(t.sink))
 //@ requires[pre.past]     forall(k, 0, len(t.sentProbes), t.sentProbes[k].sendTime <= now() && t.sentProbes[k].sendTime != 0)
 //@ ensures[C06.append]    ret0 == nil ==> len(t.sentProbes) == old(len(t.sentProbes))+1 && specLast(t).ttl == ttl && specLast(t).sendTime != 0
 //@ ensures[C06.others]    ret0 == nil ==> forall(k, 0, old(len(t.sentProbes)), t.sentProbes[k] == old(t.sentProbes[k]))
@@ -159,6 +160,7 @@ func specPlain4(p *packets.FrameParser) bool {
 //@ func (*tcpDriver).ReceiveProbe
 //@ safety C09
 //@ requires[pre.nonnil]     t != nil && t.source != nil && t.parser != nil && t.parser.parserv4 != nil && t.parser.parserv6 != nil && t.config != nil
+//@ requires[C10.recv.open]  selb(isOpen, ref(t.source))
 //@ requires[pre.sent]       len(t.sentProbes) >= 1
 //@ requires[pre.past]       forall(k, 0, len(t.sentProbes), t.sentProbes[k].sendTime <= now() && t.sentProbes[k].sendTime != 0)
 //@ ensures[C09.recv.xor]    (ret0 == nil) != (ret1 == nil)
